@@ -14,6 +14,10 @@ difference is judged:
     (for temp Filers: or inside the temporary directory the Filer made itself) [close-removed-outside-own-path]
   * close never creates anything                                    [close-created]
   * temp Filer closed with clear at every close: the temporary directory it made is gone [temp-left-behind]
+  * a Filer reopened (any number of times, with or without clear / reuse / clean / temp changes) and then closed with
+    clear - by close(clear=True) or by the closing half of reopen(clear=True): no temporary directory the Filer made
+    before that close is left.  Not judged: a temporary directory whose path the caller turned into a persistent one
+    (reopen(temp=False, reuse=True) keeps the path), and histories in which a reopen failed [temp-left-behind-after-reopen]
 """
 import os
 import shutil
@@ -30,7 +34,9 @@ assert_in_tree(filing)
 PID = "C29"
 RULE = ("cases: flag combination temp x clean x filed x extensioned x reuse x clear (all 64, enumerated) x relative name x "
         "relative base (plain, nested, dotted: a.b, .hidden, ./x, x/../y, ../x, ../../x, ../../../x) x optional pre-existing "
-        "file / directory at the target path x 0-2 reopen(clear, reuse, clean[, temp]) calls (temp may switch the Filer between temporary and persistent) x final close(clear); non-trivial = name "
+        "file / directory at the target path x 0-3 reopen(clear, reuse, clean[, temp]) calls (temp may switch the Filer between temporary and persistent) x final close(clear), "
+        "plus 288 fixed reopen histories (plain reopen() once / twice, temp switched either way, reuse, clearing or clean reopen "
+        "in between) x temp x clean x filed x extensioned ending in close(clear=True); non-trivial = name "
         "or base has a dotted segment ('.', '..' or a dot inside a segment) or clean meets a pre-existing path; distinct = "
         "canonical hash of the case")
 ASSUMPTIONS = [
@@ -40,6 +46,9 @@ ASSUMPTIONS = [
     "intermediate directories left behind by a persistent (non-temp) Filer are not judged; removal of sibling entries by clean "
     "inside the head directory is not judged (the statement only bounds clean to the head directory)",
     "runs as the sandbox user; permission-denied fallbacks are exercised by blocking the tail path with a file instead",
+    "'what it created' of a clearing close includes the temporary directories the same Filer made at earlier (re)opens: after "
+    "the clearing close none of them is left, unless the caller kept its path as a persistent one (reopen(temp=False, "
+    "reuse=True)); which of them a non-clearing reopen keeps using is not judged",
 ]
 
 # The sandbox sits several levels below .work so that a few '..' segments stay inside the harness' own scratch
@@ -210,6 +219,8 @@ def run_case(case):
         if not temp and under(os.path.relpath(filer.path, BOX), "alt"):
             labels.append("alt-used")
         all_clear = True
+        adopted = set()       # temporary directories whose path was kept as a persistent one (reopen(temp=False, reuse=True))
+        faulted = False       # a reopen failed (FilerError / OSError): what it left half done is not judged as 'left behind'
         prev = s1
         if case.get("touch") and not case["filed"] and filer.path and _inside_box(filer.path):
             # the harness plays the subclass that owns the resource at .path: a file at an extensioned path
@@ -244,11 +255,22 @@ def run_case(case):
                 return r
             except hioing.FilerError:
                 rej = True
+                faulted = True
             except OSError as ex:
                 rej = False
+                faulted = True
                 labels.append("reopen-oserror:" + type(ex).__name__)
             cur = snapshot()
             created, deleted_ro, modified_ro = judge_call("reopen(%r)" % (ro,), prev, cur, rej)
+            if ro["clear"] and not all_clear and not faulted:
+                # the closing half of this reopen was a close with clear: temporary directories made earlier are gone
+                # (one that holds the resource just opened is in use again, not left behind)
+                now_rel = os.path.relpath(filer.path, BOX) if filer.path else ""
+                left = [p for p in sorted(own_temp) if p in cur and p not in adopted and not under(now_rel, p)]
+                if left:
+                    r.fail("C29/temp-left-behind-after-reopen", "reopen(%r) closed with clear, yet temporary directories the "
+                           "Filer made at earlier (re)opens remain: %r (contents: %r)" % (
+                               ro, left, [k for k in sorted(cur) if any(under(k, p) for p in left)][:8]))
             new_temp = None
             for p in created:
                 if os.path.dirname(p) == "tmp" and os.path.basename(p).startswith("hio_"):
@@ -275,8 +297,15 @@ def run_case(case):
                 live_temp = None
             if not ro["clear"]:
                 all_clear = False
+            if not faulted and not filer.temp and filer.path:
+                for p in own_temp:
+                    if under(os.path.relpath(filer.path, BOX), p):
+                        adopted.add(p)
+                        labels.append("temp-path-kept-persistent")
             prev = cur
             labels.append("reopen")
+            if own_temp and not ro["clear"] and not ro["reuse"]:
+                labels.append("temp-remade-without-clear")
         path_rel = os.path.relpath(filer.path, BOX)
         existed = os.path.lexists(filer.path)
         try:
@@ -310,6 +339,14 @@ def run_case(case):
             if left:
                 r.fail("C29/temp-left-behind", "temporary directories made by the Filer remain after close(clear=True): %r "
                        "(contents: %r)" % (left, [k for k in s2 if any(under(k, p) for p in left)][:6]))
+        if case["clear"] and not all_clear and not faulted:
+            # reopened without clear at least once: whatever temporary directories the Filer made on the way, the final
+            # clearing close leaves none of them behind
+            left = [p for p in sorted(own_temp) if p in s2 and p not in adopted]
+            if left:
+                r.fail("C29/temp-left-behind-after-reopen", "after %d reopen(s) and close(clear=True) temporary directories "
+                       "the Filer made remain: %r (contents: %r)" % (
+                           len(case.get("reopens", [])), left, [k for k in sorted(s2) if any(under(k, p) for p in left)][:8]))
     finally:
         if filer is not None and getattr(filer, "file", None):
             try:
@@ -348,7 +385,28 @@ def enumerate_cases(tier, shard, nshards):
                                         i += 1
                                         if i % nshards == shard:
                                             yield _mk(t, c, f, x, ru, cl, nm, bs, touch=(i % 2 == 0))
-    return [("flag-matrix x names x bases", gen(), True)]
+    def _ro(clear=False, reuse=False, clean=False, temp=None):
+        return {"clear": clear, "reuse": reuse, "clean": clean, "temp": temp}
+
+    # reopen histories that end in close(clear=True): the plain reopen() of Hog.cycle / the doers' re-enter, repeated, with a
+    # temp switch either way, with reuse, with a clearing reopen in between, with a clean reopen
+    histories = [[_ro()], [_ro(), _ro()], [_ro(temp=False)], [_ro(temp=True)], [_ro(reuse=True), _ro()],
+                 [_ro(), _ro(clear=True)], [_ro(clean=True), _ro()], [_ro(temp=False, reuse=True), _ro()],
+                 [_ro(temp=True), _ro(), _ro(temp=False)]]
+
+    def gen_reopen():
+        i = 0
+        for t in (True, False):
+            for c in (False, True):
+                for f in (False, True):
+                    for x in (False, True):
+                        for nm in ("main", "a.b/c"):
+                            for h in histories:
+                                i += 1
+                                if i % nshards == shard:
+                                    yield _mk(t, c, f, x, False, True, nm, "", reopens=h, touch=(i % 2 == 0))
+    return [("flag-matrix x names x bases", gen(), True),
+            ("temp x clean x filed x extensioned x reopen histories x close(clear)", gen_reopen(), False)]
 
 
 def _strategy():
@@ -359,7 +417,7 @@ def _strategy():
                                 "temp": st.sampled_from([None, None, True, False])})
     return st.builds(_mk, st.booleans(), st.booleans(), st.booleans(), st.booleans(), st.booleans(), st.booleans(),
                      rel, base, st.sampled_from(["none", "none", "file", "dir", "dirfull"]),
-                     st.lists(ro, max_size=2), st.sampled_from([False, False, False, True]),
+                     st.lists(ro, max_size=3), st.sampled_from([False, False, False, True]),
                      st.sampled_from([None, None, "txt", "d.e"]), st.booleans())
 
 
